@@ -19,6 +19,8 @@ def gen_lifetime(rnd, n):
             pm = world.pmsg_of(it[2], d)
             if pm[3] and rnd.random() < 0.5:
                 pm[1] = []            # extract.sent_message does not know the interface of the target
+            # an object argument whose wl_message.types entry is NULL (e.g. wl_display.error's object_id): no declared interface
+            pm[5] = [['obj', a[1], [], 0] if (a[0] == 'obj' and not a[3] and rnd.random() < 0.3) else a for a in pm[5]]
             out.append(pm)
     return out
 
